@@ -1,8 +1,12 @@
 package h_c10
 
-import "github.com/elys-network/elys/zzvrf/h_c09"
+import (
+	"github.com/elys-network/elys/zzvrf/h_c08"
+	"github.com/elys-network/elys/zzvrf/h_c09"
+)
 
 // every successful open leaves the position with health strictly above the safety factor (scenarios of h_c09)
+//
 //vrf:cover open-ok
 //vrf:max-paths 3000
 func H_Perp_Open_Long_Healthy() { h_c09.H_Open_Long_UsdcCollateral() }
@@ -11,3 +15,12 @@ func H_Perp_Open_Long_Healthy() { h_c09.H_Open_Long_UsdcCollateral() }
 //vrf:max-paths 3000
 func H_Perp_Open_Short_Healthy() { h_c09.H_Open_Short() }
 
+//vrf:cover untouched closed
+//vrf:bound see h_c08.H_ClosePositions_StopLoss
+//vrf:max-paths 3000
+func H_LeveragedLp_ClosePositions_StopLoss() { h_c08.H_ClosePositions_StopLoss() }
+
+//vrf:cover untouched liquidated
+//vrf:bound see h_c08.H_ClosePositions_Liquidate
+//vrf:max-paths 3000
+func H_LeveragedLp_ClosePositions_Liquidate() { h_c08.H_ClosePositions_Liquidate() }
